@@ -339,6 +339,9 @@ func (s *dualSys) Apply(op Op, check bool) (tainted bool) {
 
 // c03CompareObs: same success/failure, code (status class for resolves), descriptor, bytes, items.
 func c03CompareObs(a, b Obs) string {
+	if (a.Again == "") != (b.Again == "") {
+		return "re-run of the same iterator value differs on one side only: " + a.Again + b.Again
+	}
 	if a.OK != b.OK {
 		// a content-free repository may be unknown or empty on either side
 		if (a.Q.K == "Tags" || a.Q.K == "Referrers") && len(a.Items)+len(b.Items) == 0 {
